@@ -70,6 +70,7 @@ type Monitors struct {
 	transitions  map[[2]int]int // leadership gains + losses per incarnation (observer)
 	wasLeader    map[[2]int]bool
 	prevote      *prevoteState
+	prevote2     *prevoteState
 }
 
 func newMonitors(w *World) *Monitors {
@@ -849,6 +850,23 @@ func (m *Monitors) checkLogs() {
 		}
 		if len(idx) > 0 && idx[0] > snapIdx+1 && idx[len(idx)-1] > snapIdx {
 			m.fail("C11", "history-lost", "n%d log starts at %d but newest durable snapshot is at %d", n.id, idx[0], snapIdx)
+		}
+		// C07: the configuration a server acts on is the newest one in its durable state (snapshot or log)
+		if n.up && n.booted && n.r != nil {
+			var want raft.Configuration
+			var wantIdx uint64
+			if s := n.snaps.Newest(); s != nil {
+				want, wantIdx = s.meta.Configuration, s.meta.ConfigurationIndex
+			}
+			for _, i := range idx {
+				if l := n.store.Peek(i); l.Type == raft.LogConfiguration && i > snapIdx {
+					want, wantIdx = raft.DecodeConfiguration(l.Data), i
+				}
+			}
+			d := n.r.VerifDump()
+			if wantIdx > 0 && (d.LatestIndex != wantIdx || fmt.Sprint(d.Latest.Servers) != fmt.Sprint(want.Servers)) {
+				m.fail("C07", "configuration-not-from-log", "n%d acts on configuration %v@%d but the newest configuration in its snapshot/log is %v@%d", n.id, d.Latest.Servers, d.LatestIndex, want.Servers, wantIdx)
+			}
 		}
 		if cfgAbove > 1 {
 			m.fail("C07", "two-uncommitted-configurations", "n%d log holds %d configuration entries above the highest committed index %d", n.id, cfgAbove, m.maxCommitted)
